@@ -647,10 +647,28 @@ func c18ReceiveHandshake(r *Run) {
 		case len(seq) == 0:
 			want = "" // cancelled before anything was read
 		case !strings.Contains(s, "readFull"):
-			if strings.Contains(s, "drainUntilSilence") {
-				want = "readByte;drainUntilSilence;NAK" // length out of range
-			} else {
+			// the cause decides: the length byte could not be read (T2) → NAK at once; it was read but
+			// is out of range → the rest of the mis-framed block must be drained first
+			readFailed := false
+			for _, in := range p.Instrs() {
+				c, ok := in.(*ssa.Call)
+				if !ok || calleeOf(c).Static == nil || calleeOf(c).Static.Name() != "readByte" {
+					continue
+				}
+				for _, f := range p.Conds {
+					if b, ok := f.Cond.(*ssa.BinOp); ok && isNilConst(b.Y) {
+						if ex, ok := b.X.(*ssa.Extract); ok && ex.Tuple == ssa.Value(c) && ex.Index == 1 {
+							if (b.Op == token.NEQ && f.Val) || (b.Op == token.EQL && !f.Val) {
+								readFailed = true
+							}
+						}
+					}
+				}
+			}
+			if readFailed {
 				want = "readByte;NAK" // T2 waiting for the length byte
+			} else {
+				want = "readByte;drainUntilSilence;NAK" // length out of range
 			}
 		case !strings.Contains(s, "parseBlock"):
 			want = "readByte;readFull;NAK" // T1 inside the block
